@@ -125,6 +125,19 @@ pub fn gen(ctx: &Ctx, rng: &mut Rng, out: &mut Vec<String>) {
             out.push(format!("pn.spec\tview\t-O npy\t{}", hex(&input)));
             out.push(format!("pn.any\tview\t--mask-monomorphic -n\t{}", hex(&input)));
         }
+        // zero-element spectra (some axis of length zero): every single-axis marginalization, the keep form, projection and their
+        // combination, through the binary on text input
+        if n == 0 && shape.len() >= 2 {
+            let input = text_spec(shape, &data);
+            for ax in 0..shape.len() {
+                out.push(format!("pn.any\tview\t--marginalize-remove {ax}\t{}", hex(&input)));
+                out.push(format!("pn.any\tview\t--marginalize-keep {ax} -O npy\t{}", hex(&input)));
+                if t || ax == 0 { out.push(format!("pn.any\tview\t-m {ax} --mask-monomorphic -n\t{}", hex(&input))); }
+            }
+            let ones: Vec<String> = shape.iter().map(|v| (*v).min(1).to_string()).collect();
+            out.push(format!("pn.any\tview\t--project-shape {}\t{}", ones.join(","), hex(&input)));
+            out.push(format!("pn.any\tfold\t--fill zero -O npy\t{}", hex(&input)));
+        }
         // view options on degenerate shapes (all elements >= 1 so that the harness' npy input is readable)
         if n >= 1 && (t || si % 3 == 0) {
             let d = shape.len();
